@@ -665,6 +665,12 @@ func (in *Interp) run(fr *Frame) Value {
 	for {
 		fr.visits[b.Index]++
 		if fr.visits[b.Index] > bound {
+			if !in.eng.isHarnessFn(fr.fn) {
+				// a loop of the repository that runs past the bound may simply need a larger bound — or never end. The
+				// native run of the same inputs decides: a hang is a violation (the message loop stalls), anything
+				// else leaves the path inconclusive as before.
+				in.p.violate(fmt.Sprintf("nontermination: %s does not leave its loop (block %d) within %d iterations on this input; natively the run hangs", fr.fn.String(), b.Index, bound), nil)
+			}
 			in.p.abort("unwind", fmt.Sprintf("loop bound %d exceeded in %s block %d", bound, fr.fn.String(), b.Index))
 		}
 		var next *ssa.BasicBlock
